@@ -1113,6 +1113,12 @@ impl ChainListener for ChainMonitor {
         // update the saw_block flag, in case the listener saw a block start event
         state.saw_block = listener.saw_block;
     }
+
+    fn on_streamed_block_abort(&self) {
+        // Lock order: after `self.state`
+        let _state = self.get_state();
+        *self.decode_state.lock().expect("lock") = None;
+    }
 }
 
 impl SendSync for ChainMonitor {}
